@@ -271,6 +271,8 @@ def sparse_group_formula_task(T, g):
     hy = [nst >= 0, nst * nst == z3.Sum([t * t for t in st])]
 
     def post(out, p):
+        if T.prop == 'C19':
+            return []             # C19: the safety obligations only (zero weights and zero coordinates are inside the domain)
         r = [L(t) for t in np.asarray(out, dtype=object).ravel()]
         return [(f'[{k}]==BST(ST(x,s.alpha.wf[features-of-the-group]),s.alpha.wg[g])', hy,
                  r[k] == z3.If(nst <= u, 0, (1 - u / nst) * st[k])) for k in range(d)]
@@ -281,7 +283,7 @@ def sparse_group_formula_task(T, g):
 
 
 for _g in (0, 1):
-    add_task(['C07', 'C08'], f'block_separable:WeightedL1GroupL2.prox_1group[g={_g}]==ST-then-BST', sparse_group_formula_task, strength='B', g=_g)
+    add_task(['C07', 'C08', 'C19'], f'block_separable:WeightedL1GroupL2.prox_1group[g={_g}]==ST-then-BST', sparse_group_formula_task, strength='B', g=_g)
 for _k in range(8):
     # group of two features: 4 of its 113 path obligations stay undecided after 7 minutes each (z3 + cvc5): NOT claimed; kept runnable
     # with `--tier extended`, in no MANIFEST tier
